@@ -212,7 +212,8 @@ func streamHex(r *hx.Rng) {
 			j := r.Intn(len(m))
 			switch r.Intn(6) {
 			case 0:
-				m[j] = []rune{'g', 'x', 'G', '-', 'é', 0x200B, ':', '/', '@', '`'}[r.Intn(10)]
+				// (incl. runes whose LOW BYTE is an ASCII hex digit or blank: U+0130, U+0141, U+0446, U+4E38, U+0120, U+010A)
+				m[j] = []rune{'g', 'x', 'G', '-', 'é', 0x200B, ':', '/', '@', '`', 0x0130, 0x0141, 0x0446, 0x4E38, 0x0120, 0x010A, 0x0161, 0x3B}[r.Intn(18)]
 			case 1:
 				m = append(m[:j], m[j+1:]...) // drop one character
 			case 2:
@@ -321,6 +322,22 @@ func randTree(r *hx.Rng, depth int) *tree {
 			}
 		} else {
 			t.b = r.Bytes(r.Intn(5))
+		}
+	}
+	return t
+}
+
+// randSpine: an expanded message with 2-4 fields, one of which is again such a message, depth levels deep; the others
+// are leaves (varint, fixed, string, bytes) from randTree
+func randSpine(r *hx.Rng, depth int) *tree {
+	t := &tree{num: dumpTags[r.Intn(6)], wt: 2, exp: true, kids: []*tree{}}
+	nk := 2 + r.Intn(3)
+	at := r.Intn(nk)
+	for k := 0; k < nk; k++ {
+		if k == at && depth > 1 {
+			t.kids = append(t.kids, randSpine(r, depth-1))
+		} else {
+			t.kids = append(t.kids, randTree(r, 0))
 		}
 	}
 	return t
@@ -572,6 +589,10 @@ func streamDump(r *hx.Rng) {
 			ts = ts[:0]
 			for k := 1 + r.Intn(5); k > 0; k-- {
 				ts = append(ts, randTree(r, 2))
+			}
+			if i%4 == 3 {
+				// deep nesting, every level expanded, sibling string / bytes / message fields at every depth
+				ts = append(ts[:r.Intn(2)], randSpine(r, []int{3, 4, 5, 6, 7, 8, 10, 12, 16}[(i/4)%9]))
 			}
 			if consistent(ts, "", map[string]string{}) {
 				break
